@@ -1,5 +1,6 @@
 """Verification driver: explore all paths of a function under its contract."""
 import ast
+import os
 import time
 
 import z3
@@ -196,7 +197,8 @@ def check_raise(ctx, contract, values, exc, fdef):
   if contract.raises_only is not None and exc in contract.raises_only:
     return
   ctx.oblige(z3.BoolVal(False), 'no %s escapes' % exc, 'raises',
-             ('C09',) + tuple(contract.props))
+             tuple(getattr(ctx.unit.modspec, 'safety_props', ('C09',))) +
+             tuple(contract.props))
 
 
 def verify_function(modname, qualname):
@@ -216,6 +218,12 @@ def verify_function(modname, qualname):
     ctx = run_path(unit, src, cs, fdef, prefix)
     pending.extend(ctx.pending)
     unit.paths += 1
+    if os.environ.get('MMVERIF_TRACE') and unit.paths % 5 == 0:
+      import sys
+      print('  [trace] %s paths=%d pending=%d obligations=%d %.0fs last=%s' % (
+          qualname, unit.paths, len(pending), len(unit.obligations),
+          time.time() - t0, unit.path_outcomes[-1]), file=sys.stderr,
+            flush=True)
     if unit.paths > MAX_PATHS:
       raise EngineError('%s: more than %d paths' % (qualname, MAX_PATHS))
   unit.gen_time = time.time() - t0
